@@ -637,6 +637,24 @@ func run(ctx *Ctx) *Result {
 			}
 			return
 		}
+		// more than eleven transform-sets / proposals in one crypto map line: the tool must refuse the pair
+		tooMany := false
+		for _, d := range []*vdev{c.dev, c.spoc} {
+			for _, x := range d.Blocks {
+				if w := x.words(); len(w) > 7+11 && w[0] == "crypto" && (w[1] == "map" || w[1] == "dynamic-map") && w[4] == "set" && (w[5] == "ikev1" || w[5] == "ikev2") {
+					tooMany = true
+				}
+			}
+		}
+		if tooMany {
+			res.Eval(canon, true)
+			if status == 0 {
+				res.Fail(map[string]any{"frag": "vpn", "pred": "more_than_eleven_transform_sets_accepted"}, "drc accepts a crypto map line with more than 11 names:\n"+out, c)
+			} else {
+				res.Count("too-many-transform-sets-refused")
+			}
+			return
+		}
 		if status != 0 {
 			// every generated pair is valid (complete entries, no dangling reference): a refusal is a failure of its own
 			res.Eval(canon, false)
